@@ -1419,13 +1419,23 @@ impl<R: std::io::Read> Decoder<R> {
             // if total number of remaining samples isn't known,
             // treat an EOF error as the end of stream
             // (this is an uncommon case)
-            None => match FrameHeader::read(crc16_reader.by_ref(), self.blocks.streaminfo()) {
-                Ok(header) => header,
-                Err(Error::Io(err)) if err.kind() == std::io::ErrorKind::UnexpectedEof => {
-                    return Ok(None);
+            // but only a *clean* EOF: running out of data part-way
+            // through a frame header is a truncated stream
+            None => {
+                let mut first_byte = [0; 1];
+                loop {
+                    match crc16_reader.read(&mut first_byte) {
+                        Ok(0) => return Ok(None),
+                        Ok(_) => break,
+                        Err(err) if err.kind() == std::io::ErrorKind::Interrupted => continue,
+                        Err(err) => return Err(err.into()),
+                    }
                 }
-                Err(err) => return Err(err),
-            },
+                FrameHeader::read(
+                    &mut first_byte.as_slice().chain(crc16_reader.by_ref()),
+                    self.blocks.streaminfo(),
+                )?
+            }
         };
 
         read_subframes(
